@@ -91,7 +91,9 @@ def run(ctx):
         for text in pages:
             for _ in range(2):
                 name = rnd.choice(["qrcode", "qrcode", "qrcode", "other", "Qrcode", ""])
-                ver = rnd.choice(["7.0", "6.1", "7.4.2", "@@", " ", "", "1.0", "v2", "8.0.dev0", "x y", "d"])
+                ver = rnd.choice(["7.0", "6.1", "7.4.2", "@@", " ", "", "1.0", "v2", "8.0.dev0", "x y", "d",
+                                  # characters that mean something to re / str.format / roff but nothing to the property
+                                  "\\fB8.0\\fR", "8.0\\1", "a\\\\b", "\\g<0>", "8.0\\-rc1", "\\n", "{0}", "%s", "$1", "&", "8.0\\"])
                 items.append((name, ver, text))
         reqs, exps, sreq = [], [], []
         second = []
